@@ -38,6 +38,18 @@ fn enumerate() {
         .unwrap_or("PANIC".to_string());
         writeln!(out, "{}", r).unwrap();
     }
+    let texts = std::io::BufReader::new(std::fs::File::open(format!("{dir}/hex_texts.txt")).unwrap());
+    let mut out = std::io::BufWriter::new(std::fs::File::create(format!("{dir}/out_fromhex.txt")).unwrap());
+    for line in texts.lines() {
+        let s = line.unwrap();
+        let r = std::panic::catch_unwind(|| match from_hex(&s) {
+            Some(v) => format!("{:016x}", if v.is_nan() { f64::NAN.to_bits() } else { v.to_bits() }),
+            None => "E".to_string(),
+        })
+        .unwrap_or("PANIC".to_string());
+        writeln!(out, "{}", r).unwrap();
+    }
+    drop(out);
     let mut f = std::io::BufWriter::new(std::fs::File::create(format!("{dir}/out_render.txt")).unwrap());
     for v in vals() {
         let bits = v.to_bits();
